@@ -38,6 +38,8 @@ def run(chk):
     r7(chk, prog)
     r4(chk, prog)
     r5(chk, prog, tables)
+    from . import c15
+    c15.r_safety(chk, prog, "C04.R8")       # the level stack is never indexed outside its allocation (automaton, shared with C15)
     chk.undecided_clauses += [
         "absence of undefined behaviour inside libc calls and in the callees summarised here (print buffer: C19; containers: C06/C07)",
         "sanitizer-level memory safety of everything reachable: only the clauses listed are decided",
@@ -57,7 +59,7 @@ def r1(chk, prog, tables):
         if la:
             cfg, o = la[0]
             chk.refuted(rid, "json_tokener_parse_ex", sig, "json_tokener.c",
-                        "from configuration %s, byte class %s: the parser reads an input byte beyond the one it was given (look-ahead past len)"
+                        "from configuration %s, byte class %s: the parser reads an input byte outside the chunk it was given (before its start or at / past its length)"
                         % (T.cfg_str(cfg), product.show(bytes(sorted(b % 256 for b in o.bytes))[:8])))
         else:
             chk.proven(rid, "json_tokener_parse_ex", sig, "json_tokener.c", "no look-ahead read in %d transitions" % sum(len(v) for v in T.trans.values()))
